@@ -63,6 +63,8 @@ Corresponding(c, cls, early) ==
                             [] c.what = "bad_version" -> "InvalidVersion" \in cls
                             [] c.what = "version_garbled" -> "MissingVersionInfo" \in cls
                             [] c.what = "trailing" -> "AdditionalTokensError" \in cls
+                            [] c.what \in {"a2ml_syntax", "a2ml_no_ifdata_block", "a2ml_undeclared_type"} -> "A2mlError" \in cls
+                            [] c.what = "a2ml_end_tag" -> "IncorrectEndTag" \in cls
                             [] c.what = "empty_project_missing" -> "InvalidMultiplicityNotPresent" \in cls
                             [] OTHER -> "InvalidMultiplicityTooMany" \in cls
          [] OTHER -> TRUE
